@@ -1,4 +1,4 @@
-from typing import Dict, Optional
+from typing import Dict, List, Optional
 
 from . import ast
 from .grammar import ODataLexer, ODataParser  # type: ignore
@@ -33,6 +33,10 @@ class AliasRewriter(NodeTransformer):
         if not parser:
             parser = ODataParser()
 
+        # Lambda variables that are currently in scope. These (and paths rooted
+        # at them) refer to the collection's items, never to an aliased field.
+        self._lambda_vars: List[ast.Identifier] = []
+
         self.replacements = {
             parser.parse(lexer.tokenize(k)): parser.parse(lexer.tokenize(v))
             for k, v in self.field_aliases.items()
@@ -40,17 +44,33 @@ class AliasRewriter(NodeTransformer):
 
     def visit_Identifier(self, node: ast.Identifier) -> ast._Node:
         """:meta private:"""
+        if node in self._lambda_vars:
+            return node
         if node in self.replacements:
             return self.replacements[node]
         return node
 
     def visit_Attribute(self, node: ast.Attribute) -> ast._Node:
         """:meta private:"""
+        root = node.owner
+        while isinstance(root, ast.Attribute):
+            root = root.owner
+        if root in self._lambda_vars:
+            return node
+
         if node in self.replacements:
             return self.replacements[node]
         else:
             new_owner = self.visit(node.owner)
             return ast.Attribute(new_owner, node.attr)
+
+    def visit_Lambda(self, node: ast.Lambda) -> ast._Node:
+        """:meta private:"""
+        self._lambda_vars.append(node.identifier)
+        try:
+            return ast.Lambda(node.identifier, self.visit(node.expression))
+        finally:
+            self._lambda_vars.pop()
 
     def visit_Call(self, node: ast.Call) -> ast._Node:
         """:meta private:"""
